@@ -71,6 +71,29 @@ pub fn c13(h: &mut H) {
             }
         }
     }
+    // base generation on boundary draws (r = N - 1, 1, 0 square to 1, 1, 0): a base equal to 1 would make every
+    // signature valid for ANY value of that attribute
+    {
+        for first in [Integer::from(&k.n_mod - 1u32), Integer::from(1), Integer::from(0)] {
+            let (o, _) = call(h, "cl.bases", vec![k.pk.clone(), json!(2)], vec![("below".into(), first.clone())]);
+            let bid = h.last();
+            h.stat("C13.boundary_base_draw");
+            if let Some(v) = o.ok() {
+                let bs: Vec<Integer> = v.as_array().unwrap().iter().map(int_of).collect();
+                h.expect(bs.iter().all(|a| *a > 1), "C13.base_is_one", "Bases::generate returned the base 0 or 1 for a boundary draw: a signature then verifies for any value of that attribute", &[bid]);
+                if bs.len() == 2 && bs.iter().any(|a| *a <= 1) {
+                    let msgs = attrs(h, 2);
+                    if let Some(sig) = signm(h, &k, &bs, &msgs) {
+                        let mut m2 = msgs.clone();
+                        let j = if bs[0] <= 1 { 0 } else { 1 };
+                        m2[j] += 12345;
+                        let v = verifym(h, &k.pk, &bs, &sig, &m2);
+                        h.expect(!v.is_true(), "C13.attr_unbound", "a signature verifies for another value of an attribute whose generated base is 1", &[h.last()]);
+                    }
+                }
+            }
+        }
+    }
     // caller-supplied base sets and key components that are NOT quadratic residues (Bases and CL03PublicKey::new
     // are public; the property speaks of every key pair and base set): N - a is a non-residue modulo both
     // safe primes, small integers are residues or not at random. Odd attributes, so that the signed element
